@@ -87,7 +87,7 @@ pub mod verif_std {
 }
 pub use verif_std::*;
 use std::net::{Ipv4Addr, Ipv6Addr};
-broadcast use {verif_std::axiom_max_usize, verif_std::axiom_min_usize};
+broadcast use {verif_std::axiom_max_usize, verif_std::axiom_min_usize, verif_admit_std::axiom_region_key_model};
 pub type Result<T> = core::result::Result<T, VerifError>;
 
 // ---- struct shims (field names + type text checked against /repo on every run) -------------
@@ -425,4 +425,103 @@ pub proof fn lemma_v4_remove_undoes_add(pre: &IPDiversityEnforcer, mid: &IPDiver
     lemma_unbump_bump(pre.ipv4_16_counts@, a.subnet_16);
     if a.asn.is_some() { lemma_unbump_bump(pre.asn_counts@, a.asn.unwrap()); }
     if a.country.is_some() { lemma_unbump_bump(pre.country_counts@, a.country.unwrap()); }
+}
+
+// =================================================================================================
+// Admission pipeline of the routing table: DhtCoreEngine::add_node (C13 clause "an admission that fails
+// part-way consumes none"). The function is `async`, but every `.await` in it is the acquisition of a
+// tokio RwLock guard; the extraction replaces each acquisition by a parameter that stands for the guarded
+// object (await erasure, DESIGN 0.2) and verifies the sequential body. ASSUMED: the four guards are
+// independent objects (they are four different Arc<RwLock<..>> fields), the callees outside this unit
+// (CloseGroupValidator::validate, KademliaRoutingTable::add_node, IPDiversityEnforcer::analyze_unified,
+// GeographicRegion::from_ip, address parsing) return *some* value and touch nothing else.
+// =================================================================================================
+pub mod verif_admit_std {
+    use vstd::prelude::*;
+    use super::*;
+    /// std::net::IpAddr: opaque here (Verus has no specification for it); Copy like the real type
+    #[verifier::external_body]
+    pub struct IpAddr { _p: u8 }
+    impl Clone for IpAddr {
+        #[verifier::external_body]
+        fn clone(&self) -> (r: Self) ensures r == *self { unimplemented!() }
+    }
+    impl Copy for IpAddr {}
+    #[verifier::external_body]
+    pub struct NodeId { _p: [u8; 32] }
+    pub struct NodeInfo { pub id: NodeId, pub address: String }
+    #[verifier::external_body]
+    pub struct CloseGroupValidator { _p: u8 }
+    impl CloseGroupValidator {
+        #[verifier::external_body]
+        pub fn validate(&self, node_id: &NodeId) -> (r: bool) { unimplemented!() }
+    }
+    #[verifier::external_body]
+    pub struct KademliaRoutingTable { _p: u8 }
+    impl KademliaRoutingTable {
+        // contract verified in unit `bucket`; here only its verdict matters
+        #[verifier::external_body]
+        pub fn add_node(&mut self, node: NodeInfo) -> (r: Result<()>) { unimplemented!() }
+    }
+    /// `s.parse::<SocketAddr>()` then `.ip()`, else `s.parse::<IpAddr>().ok()` -- string parsing is opaque here
+    #[verifier::external_body]
+    pub fn verif_parse_socket_ip(s: &String) -> (r: Option<IpAddr>) { unimplemented!() }
+    #[verifier::external_body]
+    pub fn verif_parse_ip(s: &String) -> (r: Option<IpAddr>) { unimplemented!() }
+    #[verifier::external_body]
+    pub broadcast proof fn axiom_region_key_model()
+        ensures #[trigger] vstd::std_specs::hash::obeys_key_model::<GeographicRegion>(),
+    {}
+    /// `*map.entry(k).or_insert(0) += 1` (the extraction renames exactly that statement)
+    #[verifier::external_body]
+    pub fn verif_count_inc(m: &mut std::collections::HashMap<GeographicRegion, usize>, k: GeographicRegion)
+        requires geo_cnt(old(m)@, k) < usize::MAX,
+        ensures final(m)@ == old(m)@.insert(k, (geo_cnt(old(m)@, k) + 1) as usize),
+    { unimplemented!() }
+    /// `map.get_mut(&k)`
+    #[verifier::external_body]
+    pub fn verif_geo_get_mut<'a>(m: &'a mut std::collections::HashMap<GeographicRegion, usize>, k: &GeographicRegion) -> (r: Option<&'a mut usize>)
+        ensures
+            r.is_some() == old(m)@.contains_key(*k),
+            r.is_some() ==> *r.unwrap() == old(m)@[*k] && final(m)@ == old(m)@.insert(*k, *final(r.unwrap())),
+            r.is_none() ==> final(m)@ == old(m)@,
+    { unimplemented!() }
+    pub open spec fn geo_cnt(m: Map<GeographicRegion, usize>, k: GeographicRegion) -> nat {
+        if m.contains_key(k) { m[k] as nat } else { 0 }
+    }
+}
+pub use verif_admit_std::*;
+impl GeographicRegion {
+    #[verifier::external_body]
+    pub fn from_ip(ip: IpAddr) -> (r: GeographicRegion) { unimplemented!() }
+}
+impl Clone for GeographicRegion {
+    #[verifier::external_body]
+    fn clone(&self) -> (r: Self) ensures r == *self { unimplemented!() }
+}
+impl Copy for GeographicRegion {}
+impl PartialEq for GeographicRegion {
+    #[verifier::external_body]
+    fn eq(&self, other: &GeographicRegion) -> (r: bool) ensures r == (*self == *other) { unimplemented!() }
+}
+impl Eq for GeographicRegion {}
+impl std::hash::Hash for GeographicRegion {
+    #[verifier::external_body]
+    fn hash<H: std::hash::Hasher>(&self, state: &mut H) { unimplemented!() }
+}
+pub struct GeographicDiversityEnforcer {
+    pub region_counts: std::collections::HashMap<GeographicRegion, usize>,
+    pub max_per_region: usize,
+}
+pub struct DhtCoreEngine {}
+impl IPDiversityEnforcer {
+    // outside this unit (GeoIP lookups, prefix extraction: Kani c13_analysis_keys_are_prefixes): some analysis or an error
+    #[verifier::external_body]
+    pub fn analyze_unified(&self, addr: IpAddr) -> (r: Result<UnifiedIPAnalysis>) { unimplemented!() }
+}
+impl GeographicDiversityEnforcer {
+    /// every region's admitted-node count is the same in both (an entry holding 0 counts like no entry)
+    pub open spec fn same_region_counts(&self, o: &GeographicDiversityEnforcer) -> bool {
+        forall|g: GeographicRegion| geo_cnt(self.region_counts@, g) == geo_cnt(o.region_counts@, g)
+    }
 }
